@@ -4,9 +4,10 @@ open Primaite Primaite.Reward Primaite.RewardGraph
 /-! Line protocol of the C10 driver (names contain no blanks, commas, colons or semicolons; `-` = empty list):
 
     graph k1:n1,n2;k2:-;...          -> `cycle=1` | `cycle=0 order=a,b,c`       (science.py functions on a raw graph)
-    setorder <inserted> <observed>   -> ok    (iteration order of the Python set built by adding <inserted> in sequence)
+    setorder <inserted> <observed>   -> ok    (iteration order of the Python set built by adding <inserted> in sequence;
+                                              followed only if it has exactly the inserted elements: Model `sigmaOf`)
     agent <ref>                      -> ok    (next agent of the configuration, no components yet)
-    comp <weight> <kind> <args…>     -> ok    (component appended to the last declared agent)
+    comp <weight> <kind> <args…>     -> ok    (component appended to the last declared agent; weight `default` = key omitted)
     load                             -> `ok order=…` | `raised <err>`            (from_config)
     state clear | state file n fo fi h | state svc n s codes | state browser n outcomes   -> ok
     item <agent> <action> <ok> <request,as,commas>  -> ok   (this step's history item of that agent)
@@ -55,13 +56,6 @@ def parseComp : List String → Option Comp
     | _, _ => none
   | _ => none
 
-/-- the set-iteration oracle: the observed order for an insertion sequence the rig has reported; otherwise first
-occurrences in insertion order -/
-def sigmaOf (table : List (List Name × List Name)) (l : List Name) : List Name :=
-  match table.lookup l with
-  | some o => o
-  | none => l.eraseDups
-
 def showErr : Err → String
   | .cycle => "cycle" | .keyError => "keyError" | .indexError => "indexError"
 
@@ -98,7 +92,7 @@ def step (d : DState) : List String → DState × String
   | ["setorder", ins, obs] => ({ d with table := (splitList ins, splitList obs) :: d.table }, "ok")
   | ["agent", ref] => ({ d with cfgs := d.cfgs ++ [{ ref := ref, comps := [] }] }, "ok")
   | "comp" :: w :: rest =>
-    match parseRat w, parseComp rest, d.cfgs.getLast? with
+    match (if w = "default" then some defaultWeight else parseRat w), parseComp rest, d.cfgs.getLast? with
     | some w, some c, some last =>
       ({ d with cfgs := d.cfgs.dropLast ++ [{ last with comps := last.comps ++ [(c, w)] }] }, "ok")
     | _, _, _ => (d, "bad-op")
